@@ -2311,9 +2311,26 @@ fn gen_c08(o: &mut Out, r: &mut Rng, d: &GDict, tier: &str, cuts: bool) {
             }
             // one malformed frame at every position (several kinds of malformation)
             for k in 0..nreq {
-                for kind in 0..4 {
+                for kind in 0..6 {
                     let mut bad = rf.clone();
                     match kind {
+                        4 | 5 => {
+                            // the last AVP's padding is missing and the message length is short by it (4: an OctetString of
+                            // 3 octets appended without its padding octet; 5: of 5 octets without its three): a frame whose
+                            // length is no multiple of four is malformed, however well the rest reads
+                            let n = if kind == 4 { 3usize } else { 5 };
+                            let oc = d.by_type(T_OCT).into_iter().find(|x| x.vendor.is_none()).map(|x| x.code).unwrap_or(12);
+                            let mut f = bad[k].clone();
+                            f.extend(oc.to_be_bytes());
+                            f.push(0);
+                            f.extend(&((8 + n) as u32).to_be_bytes()[1..]);
+                            f.extend(vec![0x61u8; n]);
+                            let l = f.len();
+                            f[1] = (l >> 16) as u8;
+                            f[2] = (l >> 8) as u8;
+                            f[3] = l as u8;
+                            bad[k] = f;
+                        }
                         0 => {
                             // unknown command code
                             bad[k][5] = 0x7f;
